@@ -56,3 +56,51 @@ def budget_m2(e, m2_ref, b4):
     exceeds it whenever the segments are nearly identical (strong line, tiny noise).  Never looser than the
     plain fourth-order budget b4."""
     return min(b4, 4.0 * e * (max(m2_ref, 0.0) ** 0.5) + 4.0 * e * e + 1e-13 * max(m2_ref, 0.0) + TINY)
+
+
+def order0_err(x, starts, L, w, omega):
+    """Bound on the error of one segment transform X_k for mean removal (order 0), or None when too large to form.
+
+    Subtracting a mean m' = m + d from samples close to m is exact (Sterbenz), so the evaluated transform is that of
+    the exactly centred samples r = x - m minus d * W(omega), W the transform of the window alone.  Hence
+        |dX| <= A eps (L g + 2) sum|w| max|r|                      (recurrence on the centred, windowed samples)
+               + |d| (|W(omega)| + A eps (L g + 2) sum|w|),        |d| <= 4 eps L max|x|   (summation error of the mean)
+    - proportional to the size of the *centred* samples except for the part of the mean's own rounding that leaks
+    through the window.  A = 16.  Calibrated on the repaired tree: worst observed 0.08 of this bound over pedestals up
+    to 1e13 times the signal (Numba and NumPy kernels, smooth and random windows)."""
+    starts = np.asarray(starts, dtype=np.int64)
+    if len(starts) * L > 300_000:      # beyond this the reference itself is evaluated in float64 (refs.segment_dfts)
+        return None
+    w = np.asarray(w, dtype=np.float64)
+    idx = starts[:, None] + np.arange(L)[None, :]
+    seg = np.asarray(x, dtype=np.float64)[idx].astype(np.longdouble)
+    r = seg - seg.mean(axis=1, keepdims=True)
+    rmax, xmax = float(np.abs(r).max()), float(np.abs(seg).max())
+    n = np.arange(L, dtype=np.longdouble)
+    Ww = float(abs(np.sum(w.astype(np.longdouble) * np.cos(omega * n)) - 1j * np.sum(w.astype(np.longdouble) * np.sin(omega * n))))
+    a = float(np.abs(w).sum())
+    rec = 16.0 * EPS * (L * growth(L, omega) + 2.0) * a
+    d = 4.0 * EPS * L * xmax
+    return rec * rmax + d * (Ww + rec)
+
+
+def budgets(x, y, starts, L, w, omega, order, ref):
+    """(bx, by, bxy, b4) for one bin: the raw-scale budgets of the module docstring, and for order 0 the tighter of
+    those and the centred-scale bound of `order0_err` (2|X| E + E^2 per power, |X| Ey + |Y| Ex + Ex Ey for the cross
+    term, plus K eps of the value for the average over K segments)."""
+    K = len(starts)
+    Sx = seg_scale(x, starts, L, w, order)
+    Sy = Sx if y is None else seg_scale(y, starts, L, w, order)
+    bx, by = budget2(L, omega, Sx, K), budget2(L, omega, Sy, K)
+    bxy = budget2(L, omega, Sx ** 0.5 * Sy ** 0.5, K)
+    b4 = budget4(L, omega, Sx, Sy, K)
+    if order == 0:
+        ex = order0_err(x, starts, L, w, omega)
+        ey = ex if y is None else order0_err(y, starts, L, w, omega)
+        if ex is not None and ey is not None:
+            ax, ay = max(float(ref["XX"]), 0.0) ** 0.5, max(float(ref["YY"]), 0.0) ** 0.5
+            avg = 4.0 * EPS * K
+            bx = min(bx, 2 * ax * ex + ex * ex + avg * ax * ax + TINY)
+            by = min(by, 2 * ay * ey + ey * ey + avg * ay * ay + TINY)
+            bxy = min(bxy, ax * ey + ay * ex + ex * ey + avg * ax * ay + TINY)
+    return bx, by, bxy, b4
